@@ -178,7 +178,8 @@ def programs(draw, max_ops: int = 4, allow_xr: bool = True, ops_pool: list[str] 
             axis = draw(st.integers(0, len(cur_dims)))
             name = next(fresh)
             vals = None if draw(st.booleans()) else [100 + 7 * i for i in range(size)]
-            prog["ops"].append(["expand", name, k, size, axis, vals])
+            # the internal dimension is given as a non-negative or as the equivalent negative index
+            prog["ops"].append(["expand", name, k, size, axis, vals, draw(st.integers(0, 2)) == 0])
             icur.pop(k)
             if size >= 2:
                 cur_dims.insert(axis, name)
@@ -350,9 +351,11 @@ def apply_op(a, m: Model, op: list, src_xr: bool, hooks=None):
             tags.append("batched")
         return res, _reduced(m, d, ax, M2, keep), tags
     if k == "expand":
-        _k, name, ik, size, axis, vals = op
+        _k, name, ik, size, axis, vals = op[:6]
         dim_arg = name if vals is None else (name, list(vals))
-        internal = ik
+        internal = ik - (m.M.ndim - nd) if (len(op) > 6 and op[6]) else ik
+        if internal < 0:
+            tags.append("negative_internal_dim")
         res = a.expand(dim_arg, internal, dim_size=size, axis=axis)
         M2 = np.take(m.M, list(range(size)), axis=nd + ik)
         if size == 1:
